@@ -203,8 +203,31 @@ func c19(c *Ctx) {
 			}
 			// the id handed down is the message's own id
 			idOK := false
+			msgParam := ssa.Value(fn.Params[2])
+			var carriesId func(v ssa.Value, depth int) bool
+			carriesId = func(v ssa.Value, depth int) bool {
+				found := false
+				eachValue(v, func(x ssa.Value) {
+					x = core.Strip(x)
+					if ic, _ := core.CallResult(x); ic != nil && ic.Common().IsInvoke() && ic.Common().Method.Name() == "GetId" && core.Strip(ic.Common().Value) == msgParam {
+						found = true
+						return
+					}
+					// a small key struct built from the message: one of its fields is the id
+					if u, isU := x.(*ssa.UnOp); isU && depth < 2 {
+						if al, isAl := u.X.(*ssa.Alloc); isAl {
+							for _, fs := range fieldStores(al) {
+								if carriesId(fs.Val, depth+1) {
+									found = true
+								}
+							}
+						}
+					}
+				})
+				return found
+			}
 			for _, a := range valueOp.Call.Args {
-				if ic, _ := core.CallResult(core.Strip(a)); ic != nil && ic.Common().IsInvoke() && ic.Common().Method.Name() == "GetId" && core.Strip(ic.Common().Value) == ssa.Value(fn.Params[2]) {
+				if carriesId(a, 0) {
 					idOK = true
 				}
 			}
